@@ -258,6 +258,52 @@ def seed_incr() -> Tuple[Doc, Dict[str, Any]]:
     return d, {"root": cat, "info": info, "writer": write_incr}
 
 
+def _seed_encrypted(V: int, R: int, bits: int, cfm: str) -> Tuple[Doc, Dict[str, Any]]:
+    from mc.refs.security import Cfg, Handler
+
+    docid = b"0123456789abcdef"
+    h = Handler(Cfg(V, R, bits, cfm), "", "owner", -44, docid)
+    d = Doc()
+    f1 = d.add({"Type": N("Font"), "Subtype": N("Type1"), "BaseFont": N("Helvetica")})
+    cat, pages, page, cnum, info, meta = (d.reserve() for _ in range(6))
+    d.set(cnum, Stream({"Filter": N("FlateDecode")}, h.encrypt(cnum.num, 0, zlib.compress(b"BT /F1 12 Tf 20 100 Td (Secret AES) Tj ET"))))
+    d.set(info, {"Title": HexStr(h.encrypt(info.num, 0, b"Top secret")), "Keywords": HexStr(h.encrypt(info.num, 0, b"0123456789abcdef"))})
+    d.set(meta, Stream({"Type": N("Metadata"), "Subtype": N("XML")}, h.encrypt(meta.num, 0, b"<x:xmpmeta/>")))
+    d.set(cat, {"Type": N("Catalog"), "Pages": pages, "Metadata": meta, "Lang": HexStr(h.encrypt(cat.num, 0, b"en"))})
+    d.set(pages, {"Type": N("Pages"), "Kids": [page], "Count": 1})
+    d.set(page, {"Type": N("Page"), "Parent": pages, "MediaBox": [0, 0, 300, 300], "Resources": {"Font": {"F1": f1}}, "Contents": cnum})
+    encd = d.add(h.encrypt_dict())
+    return d, {"root": cat, "info": info, "trailer_extra": {"Encrypt": encd, "ID": [HexStr(docid), HexStr(docid)]}}
+
+
+def seed_aes128() -> Tuple[Doc, Dict[str, Any]]:
+    """AES-128 (V4 R4, crypt filter AESV2), empty user password"""
+    return _seed_encrypted(4, 4, 128, "AESV2")
+
+
+def seed_aes256() -> Tuple[Doc, Dict[str, Any]]:
+    """AES-256 (V5 R6, crypt filter AESV3), empty user password"""
+    return _seed_encrypted(5, 6, 256, "AESV3")
+
+
+def seed_ttf() -> Tuple[Doc, Dict[str, Any]]:
+    """CIDFontType2 with an embedded TrueType program (cmap formats 4 and 12) and Adobe-Identity; simple TrueType font with FontFile2"""
+    from props.c07_cidfont import ttf_file, ttf_fmt4, ttf_fmt12
+
+    d = Doc()
+    segs = [(0x0041, 0x0043, "delta", 5), (0x0061, 0x0063, "array", [9, 10, 11]), (0x3042, 0x3044, "delta", 20)]
+    prog = ttf_file([(3, 1, ttf_fmt4(segs)), (3, 10, ttf_fmt12([(0x1F600, 0x1F601, 40)]))])
+    ff = d.add(Stream({"Length1": len(prog)}, prog))
+    fd = d.add({"Type": N("FontDescriptor"), "FontName": N("AAAAAA+Ttf"), "Flags": 4, "FontBBox": [0, -200, 1000, 800], "Ascent": 800, "Descent": -200,
+                "ItalicAngle": 0, "StemV": 80, "CapHeight": 700, "FontFile2": ff})
+    df = d.add({"Type": N("Font"), "Subtype": N("CIDFontType2"), "BaseFont": N("AAAAAA+Ttf"), "CIDSystemInfo": {"Registry": b"Adobe", "Ordering": b"Identity", "Supplement": 0},
+                "FontDescriptor": fd, "DW": 500, "W": [5, [600, 700]], "CIDToGIDMap": N("Identity")})
+    f1 = d.add({"Type": N("Font"), "Subtype": N("Type0"), "BaseFont": N("AAAAAA+Ttf"), "Encoding": N("Identity-H"), "DescendantFonts": [df]})
+    f2 = d.add({"Type": N("Font"), "Subtype": N("TrueType"), "BaseFont": N("AAAAAA+Ttf"), "FirstChar": 65, "LastChar": 66, "Widths": [500, 600], "FontDescriptor": fd})
+    cat = _skeleton(d, b"BT /F1 10 Tf 10 200 Td <00050006000900140028> Tj /F2 10 Tf 0 -20 Td (AB) Tj ET", {"Font": {"F1": f1, "F2": f2}})
+    return d, {"root": cat}
+
+
 def write(d: Doc, kw: Dict[str, Any], mutate: Any = None) -> bytes:
     kw = dict(kw)
     w = kw.pop("writer", None)
@@ -274,6 +320,9 @@ SEEDS = {
     "graphics": seed_graphics,
     "crypt": seed_crypt,
     "incr": seed_incr,
+    "aes128": seed_aes128,
+    "aes256": seed_aes256,
+    "ttf": seed_ttf,
 }
 
 
